@@ -489,7 +489,7 @@ pub fn raw_oracle(sc: &Scenario, out: &Outcome) -> Vec<Violation> {
 // ---------------- Part B: direct-connection reference ----------------
 
 pub const REF_PROGRAMS: &[&str] = &[
-    "simple", "ext", "named", "pipelined", "bare-sync-then-batch", "sync-between", "describe", "close-reparse", "flush-wait", "big", "txn-ext", "copy", "error-in-batch",
+    "simple", "ext", "named", "pipelined", "bare-sync-then-batch", "sync-between", "describe", "close-reparse", "flush-wait", "big", "txn-ext", "copy", "ext-copy", "ext-copy-fail", "ext-copy-in-txn", "error-in-batch",
 ];
 
 pub fn norm(m: &Msg) -> Msg {
@@ -605,6 +605,26 @@ pub fn ref_program(prog: &str) -> Script {
                 .send(wire::copy_data(b"2\n"), "d")
                 .send_z(wire::copy_done(), "c")
                 .q(&format!("SELECT 1 /*{}*/", t(1, 0)));
+        }
+        // COPY FROM STDIN started over the extended protocol, the way libpq does it: Parse Bind Execute Sync
+        // at once (the server ignores that Sync while the COPY is in progress), then CopyData, CopyDone
+        // and a Sync of its own, which is what brings the ReadyForQuery
+        "ext-copy" | "ext-copy-fail" | "ext-copy-in-txn" => {
+            let mut b = wire::parse("", &format!("COPY t FROM STDIN /*{}*/", t(0, 0)), &[]);
+            b.extend(wire::bind("", "", &[], &[], &[]));
+            b.extend(wire::execute("", 0));
+            b.extend(wire::sync());
+            if prog == "ext-copy-in-txn" {
+                s = s.q(&format!("BEGIN /*{}*/", t(0, 9)));
+            }
+            s = s.send(b, "P B E S (COPY)").wait(Cond::CodeOrClosed(b'G', 1)).send(wire::copy_data(b"1\n"), "d").send(wire::copy_data(b"2\n"), "d");
+            let mut end = if prog == "ext-copy-fail" { wire::copy_fail("changed my mind") } else { wire::copy_done() };
+            end.extend(wire::sync());
+            s = s.send_z(end, "c/f S");
+            if prog == "ext-copy-in-txn" {
+                s = s.q(&format!("COMMIT /*{}*/", t(0, 8)));
+            }
+            s = s.q(&format!("SELECT 1 /*{}*/", t(1, 0)));
         }
         "error-in-batch" => {
             let mut b = pbe("", "SELECT ERR!", &t(0, 0));
